@@ -505,6 +505,64 @@ def tree_universe(v, nleaf=None):
     return leaves
 
 
+def confusable_sibling(v, label, fields, cfg=None):
+    """an entity whose FILE NAME is matched by the name pattern of a search it does not match: in a
+    name like {assettype}_{asset}_{task}_{state}_{version}.{ext} the free field takes the value
+    '<name>_<task>_<STATE>' and the state the other value; the search stars the free field and the
+    field after the state.  Returns (sibling fields, search string) or None."""
+    from gen import re_is_free, re_words
+    rng = v.rng
+    cfg = cfg or sorted(v.paths.keys())[0]
+    toks = dict(v.paths[cfg]["templates"]).get(label)
+    if not toks:
+        return None
+    # components of the template; the last one is the file name stretch
+    comps = [[]]
+    for t in toks:
+        if "lit" in t:
+            parts = t["lit"].split("/")
+            for i, part in enumerate(parts):
+                if i > 0:
+                    comps.append([])
+                if part:
+                    comps[-1].append({"lit": part})
+        else:
+            comps[-1].append(t)
+    name = comps[-1]
+    pinned = {c[0]["ph"] for c in comps[:-1] if len(c) == 1 and "ph" in c[0]}
+    have = dict(fields)
+    mapping = v.paths[cfg]["mapping"]
+
+    def pathval(k, val):
+        for pv, sv in mapping.get(k, []):
+            if sv == val:
+                return pv
+        return val
+    for i, t in enumerate(name):
+        if "ph" in t and re_is_free(t["re"]) and t["ph"] in have:
+            kf = t["ph"]
+            text = have[kf]
+            j = i + 1
+            while j + 1 < len(name) and "lit" in name[j] and "ph" in name[j + 1] and not re_is_free(name[j + 1]["re"]):
+                k = name[j + 1]["ph"]
+                if k not in have:
+                    break
+                text += name[j]["lit"] + pathval(k, have[k])
+                words = [w for w in re_words(name[j + 1]["re"], rng) if w not in ("*", ">")]
+                others = [w for w in words if w != pathval(k, have[k])]
+                if k not in pinned and others and j + 3 < len(name) and "ph" in name[j + 3] and name[j + 3]["ph"] in have:
+                    other_path = rng.choice(others)
+                    other_sid = dict((pv, sv) for pv, sv in mapping.get(k, [])).get(other_path, other_path)
+                    sib = [(kk, text if kk == kf else (other_sid if kk == k else vv)) for kk, vv in fields]
+                    star = name[j + 3]["ph"]
+                    search = "/".join("*" if kk in (kf, star) else vv for kk, vv in fields)
+                    if any(ch in text for ch in "[]?*"):
+                        return None
+                    return sib, search
+                j += 2
+    return None
+
+
 def constant_searches(v, leaves, k):
     """searches ending on a level the data configuration answers from constants (state, assettype,
     type ...): the last segment is one value, an or-list of values or '*', levels above are starred"""
@@ -556,6 +614,12 @@ def fam_tree(v, n, model):
         leaves = tree_universe(v)
         # the default configuration is what FindInAll / DataSid calls read
         cfg = default if rng.random() < 0.7 else rng.choice(configs)
+        confusing = []
+        for label, fields in list(leaves)[:2]:
+            cs = confusable_sibling(v, label, fields, cfg) if rng.random() < 0.6 else None
+            if cs and (label, cs[0]) not in leaves:
+                leaves.append((label, cs[0]))
+                confusing.append(cs[1])
         ops += materialise(v, wid, leaves, cfg)
         if rng.random() < 0.5:   # junk
             ask = [{"op": "sid_call", "from": {"s": "/".join(val for _, val in f)}, "m": "path", "config": cfg} for _, f in leaves]
@@ -590,6 +654,9 @@ def fam_tree(v, n, model):
             else:
                 ops.append({"op": "world", "w": wid, "do": "find_paths", "s": s, "config": rng.choice(configs)})
         for s in constant_searches(v, leaves, 6):
+            ops.append({"op": "world", "w": wid, "do": "find_all", "s": s})
+        for s in confusing:     # a file whose NAME fits the name pattern of a search it does not match
+            ops.append({"op": "world", "w": wid, "do": "find_paths", "s": s, "config": cfg})
             ops.append({"op": "world", "w": wid, "do": "find_all", "s": s})
         for _ in range(8):
             label, fields = rng.choice(leaves)
